@@ -73,6 +73,18 @@ CHECKS["C10"] = dict(
     design_ref="DESIGN.md section 2, C10",
 )
 
+CHECKS["C07"] = dict(
+    technique="TLA+ symbolic two-run model Provenance model-checked by TLC + TLC trace validation of paired real runs behind recording readers",
+    text="Provenance.tla states the two-run relation of a round-based protocol (only the altered party's stream differs): TLC checks it on the symbolic model. The driver runs the real session, HJKY, "
+         "redistribution, Gennaro, Canetti and Lindell22 participants from seeded per-party streams wrapped in recording readers - twice with identical streams and once per party with only that party's "
+         "stream replaced - on a 61-bit toy group, logging every CBOR leaf of every message and every output as a token. TLC validates per protocol: identical streams reproduce the run; a party that samples "
+         "changes all of its randomised leaves and the joint value meant to be random (session id, zero shares, generated key, nonce point) while the key is kept by redistribution and signing; parties are not "
+         "influenced before the randomness can reach them; every party consumes its own reader; and every sampled public value (dealing and zero columns, nonce commitments) equals g^s for a scalar-sized chunk "
+         "s that its sender's reader handed out.",
+    note="Trusted: TLC, the leaf tables of ProvenanceTrace (validated on the unchanged tree over many seeds), SHA-256 token interning. Protocols needing production curves (DKLs23, Lindell17, Boldyreva, CGGMP21, OT, VOLE) are not covered.",
+    design_ref="DESIGN.md section 2, C07",
+)
+
 NOT_APPLICABLE = {
     "C13": "byte-level encode/decode fidelity of 256-381-bit curve elements: no state/transition structure and operands TLC cannot represent; a TLA+ specification would decide nothing (DESIGN.md section 3)",
 }
